@@ -113,7 +113,7 @@ def run(ctx, check, exhaustive, negatives, sim, sim_quick, sim_thorough, depth, 
         ctx.extra["term_simulation"] = dict(cfg=term["sim"], behaviours=summ4["behaviours"], real_blocks_mined=summ4["steps"], accepted=ok3,
                                             actions=summ4["action_counts"])
     ctx.assumptions += [
-        "universe: 4 key-holding accounts, the deputies' income account, the 2 genesis deputies' miner accounts, founder (= reward manager), "
+        "universe: 4 key-holding accounts and one that owns nothing (a5), the deputies' income account, the 2 genesis deputies' miner accounts, founder (= reward manager), "
         "the reward precompile, deposit pool, zero address, 5 contracts "
         "(accept / revert / invalid opcode / selfdestruct to self / selfdestruct to caller); every address named in block.ChangeLogs must be "
         "inside it (harness failure otherwise)",
@@ -125,6 +125,20 @@ def run(ctx, check, exhaustive, negatives, sim, sim_quick, sim_thorough, depth, 
         "three asset ids created by issue transactions of the scenario; scenario blocks of the mid-term world are not stabilised, so only "
         "the receivers of the setup chain's issue transactions can send an id (the processor demands the id's metadata in the sender's "
         "stable account); replenishing under an id that belongs to another code is generated only towards a holder of that id",
+        "voters at balance zero: account a5 holds a key and owns nothing (never touched by the setup chain); it votes with its gas paid by a4 "
+        "and is funded in the same / a later block; a1 (votes for a3) sends away its whole balance to the last unit (gas paid by a4) and is "
+        "refunded later (C11 graph c11_zero, simulation)",
+        "mixed boxes: box transactions whose sub transactions are candidate / vote / asset transactions followed by a transfer that is valid "
+        "(control: the box is packaged) or INVALID (a2 sends 1000 LEMO it does not own: the miner gives the whole box up - roll-back on the "
+        "mining path; a validator never sees such a box), followed by other transactions that touch the same accounts in the same block "
+        "(graphs c11_roll, c12_roll); C12 default configurations: the transactions after a given-up asset box are sent by a2 and the boxes "
+        "carry no issue sub transaction - a1's fees move the votes of a3, and any non-equity change of an account whose FIRST equity / asset "
+        "id entry was rolled back makes the unchanged code seal a block its validators refuse (finding "
+        "Dev_RevertedFirstEntrySplitsMinerValidator; the wide configurations c12_rollw*, c12_simw are used once known_findings.txt lists "
+        "the key or records its fix); failing contracts KR / KX as first-time receivers are generated, but what a reverted call leaves in "
+        "their accounts cannot reach a block (nothing else can change such a contract's account)",
+        "candidate ranking (C11): the votes recorded for every candidate listed in store.GetCandidatesTop at the block are compared with "
+        "the account's votes; who must be listed is C10's subject",
         "block gas: the header of a scenario block may name a small gas limit (40000 .. 300000, chosen by the spec action GasLimit; "
         "otherwise the parent's, ample); which candidates fit is adopted from the real miner",
         "mid-term world: heights 4-5 of the genesis term with the real term / interim durations, blocks never confirmed",
